@@ -286,9 +286,7 @@ def gramBoth (x : List K) (p : Nat) (c : List K) : K × K :=
 chain: divisors real and positive (`DivisorsOK`, `ld_sigma_pos_of_toeplitz_pd`), `|κ_j|² < 1`,
 `σ > 0` real, Yule–Walker residual exactly zero (`arLD_solves_YW`), `σ = R(0) − Σ a_k conj R(k)`
 (`arLD_sigma`) and `σ = cᴴ·T·c` at the prediction-error filter (`arLD_sigma_is_form`) -/
-def ldqReport (x : List CQ) (o : Nat) : String :=
-  let xf := fnOfK x
-  let lags := (List.range (o + 1)).map fun k => autocorrDirect xf x.length k
+def ldrReport (lags : List CQ) (o : Nat) : String :=
   let r := fnOfK lags
   let est := arLD r o
   let divOK := (List.range o).all fun j => let b := (ldLoop r (j + 1)).b; b.im == 0 && b.re > 0
@@ -298,6 +296,10 @@ def ldqReport (x : List CQ) (o : Nat) : String :=
   let errOK := Scalar.beq est.2 (r 0 -. sumRange o fun k => est.1.getD k zero *. conj (r (k + 1)))
   let formOK := Scalar.beq est.2 (toepForm r o (predErrFilter est.1))
   s!"ok {showCQList est.1} {showCQList [est.2]} {showBoolList [divOK, kapOK, sigPos, ywOK, errOK, formOK]}"
+
+def ldqReport (x : List CQ) (o : Nat) : String :=
+  let xf := fnOfK x
+  ldrReport ((List.range (o + 1)).map fun k => autocorrDirect xf x.length k) o
 
 def handle (args : List String) : String :=
   match args with
@@ -316,6 +318,12 @@ def handle (args : List String) : String :=
   | ["ldq", o, den, xs] => match o.toNat?, den.toNat? with
     | some o, some den => match parseCQList? den xs with
       | some x => if o = 0 ∨ x.length < o + 1 then "err IndexError" else ldqReport x o
+      | none => "bad-op"
+    | _, _ => "bad-op"
+  | ["ldrq", o, den, rs] => match o.toNat?, den.toNat? with
+    -- `AR_est_LD(None, o, rxx=r)` in exact arithmetic on a SUPPLIED sequence (structured exact autocovariances)
+    | some o, some den => match parseCQList? den rs with
+      | some r => if o = 0 ∨ r.length < o + 1 then "err IndexError" else ldrReport r o
       | none => "bad-op"
     | _, _ => "bad-op"
   | ["autocorr", nl, xs] => match nl.toNat?, parseCList? xs with
